@@ -535,6 +535,13 @@ func registerHost(L *lua.LState) {
 		L.RaiseError("host function failed")
 		return 0
 	}))
+	L.SetGlobal("hostyield", L.NewFunction(func(L *lua.LState) int {
+		vals := []lua.LValue{lua.LString("host1"), lua.LString("host2")}
+		for i := 1; i <= L.GetTop(); i++ {
+			vals = append(vals, L.Get(i))
+		}
+		return L.Yield(vals...)
+	}))
 	L.SetGlobal("hostresume", L.NewFunction(func(L *lua.LState) int {
 		fn := L.CheckFunction(1)
 		var args []lua.LValue
